@@ -33,6 +33,20 @@ void vh_fill_profile(mzd_t *M, int style) {
     vh_fill_rankprofile(M, piv, r, 1);
     break;
   }
+  case 9: { /* recursive PLE with L compression over whole words: r1 pivots in the left half with r1 mod 64 not in
+               {0, 32}, at least 64 further pivots in the right half, rows left below r1 + r2 */
+    int n1 = ((((n - 1) / 64 + 1) >> 1)) * 64;
+    int r1 = vh_pick((int[]){7, 20, 45, 70, 100, 129}, 6), r2 = vh_pick((int[]){70, 130, 200}, 3);
+    if (r1 >= n1) r1 = n1 > 8 ? n1 - 7 : 1;
+    if (r2 > n - n1) r2 = n - n1;
+    if (r1 + r2 > m - 5) r2 = m - 5 - r1 > 1 ? m - 5 - r1 : 1;
+    int c = 0;
+    for (int t = 0; t < r1 && c < n1 && r < maxr; t++) { piv[r++] = c; c += (n1 / (r1 + 1)) > 1 ? vh_randint(1, n1 / (r1 + 1)) : 1; }
+    c = n1;
+    for (int t = 0; t < r2 && c < n && r < maxr; t++) { piv[r++] = c; c += ((n - n1) > 2 * r2 && vh_randint(0, 3) == 0) ? 2 : 1; }
+    vh_fill_rankprofile(M, piv, r, 1);
+    break;
+  }
   case 5: vh_fill_identity(M); break;
   case 6: vh_fill_sparse(M, vh_randint(1, 3)); break;
   case 7: { /* full column rank / last pivots at the right edge */
@@ -203,18 +217,20 @@ static void junk_perm(mzp_t *P) {
 }
 
 static void ple_case(const vh_args_t *a, int op, int big) {
+  int bigshape = -1;
   int m = alg_dim(a), n = alg_dim(a);
   if (big) {
     /* shapes that enter the block-recursive algorithm in the small-cache configuration:
        ncols > 64 and width*nrows > __M4RI_PLE_CUTOFF */
-    static const int bm[] = {70, 4200, 130, 140, 2100, 600, 200, 1030, 560};
-    static const int bn[] = {8200, 70, 4200, 3900, 260, 900, 2800, 500, 960};
-    int t = a->tier ? vh_randint(0, 8) : (big - 1) % 5;
+    static const int bm[] = {70, 4200, 130, 2100, 1400, 140, 600, 200, 1030, 560};
+    static const int bn[] = {8200, 70, 4200, 260, 400, 3900, 900, 2800, 500, 960};
+    int t = a->tier ? vh_randint(0, 9) : (big - 1) % 5;
+    bigshape = t;
     m = bm[t]; n = bn[t];
     if (a->maxdim && (m > a->maxdim || n > a->maxdim)) { m = a->maxdim; n = a->maxdim; }
   } else if (a->tier == 0 && (long)m * n > 260L * 200) { if (m > n) m = m / 2 + 1; else n = n / 2 + 1; }
   mzd_t *A = vh_mk(m, n, -1);
-  vh_fill_profile(A, big ? vh_pick((int[]){0, 1, 1, 2, 3, 3, 8}, 7) : pick_style());
+  vh_fill_profile(A, big ? ((bigshape == 3 || bigshape == 4 || bigshape >= 6) && vh_randint(0, 2) ? 9 : vh_pick((int[]){0, 1, 1, 2, 3, 3, 8}, 7)) : pick_style());
   mzp_t *P = mzp_init(m), *Q = mzp_init(n);
   junk_perm(P); junk_perm(Q);
   static const int cuts[] = {0, 0, 64, 128, 512};
